@@ -268,6 +268,7 @@ pub const ALL: &[(&str, fn(u32, u32) -> u64)] = &[
     ("f_fold_sum", f_fold_sum),
     ("f_slice_pattern", f_slice_pattern),
     ("f_extend_findmap", f_extend_findmap),
+    ("f_for_each", f_for_each),
 ];
 
 pub fn f_slice_pattern(a: u32, b: u32) -> u64 {
@@ -297,5 +298,14 @@ pub fn f_extend_findmap(a: u32, b: u32) -> u64 {
     for x in &v {
         s = s.wrapping_mul(31).wrapping_add(*x as u64);
     }
+    s
+}
+
+pub fn f_for_each(a: u32, b: u32) -> u64 {
+    let v = data(a, b);
+    let mut out: Vec<u32> = Vec::new();
+    v.iter().for_each(|x| out.push(x.wrapping_add(b)));
+    let mut s = out.len() as u64;
+    out.iter().for_each(|x| s = s.wrapping_mul(33).wrapping_add(*x as u64));
     s
 }
